@@ -8,17 +8,24 @@ LEVEL = "exploration"
 BUDGET = {"quick": 1200, "thorough": 300000}
 RULE = ("case = history executed (i) in a fresh Cello Thread (teardown = collector deletion at thread exit) or (ii) in a "
         "fresh process' main thread (teardown = Cello_Exit through atexit, ledger read from an ELF destructor): new / "
-        "new_root / new_raw of instrumented objects (malloc'd and arena-allocated), copy, explicit del / del_root / del_raw, "
-        "Box ownership with the owner allocated before or after the owned object, chains of Boxes, Array<Box>, dropped "
-        "references, forced collections, churn (threshold collections), stop/start windows with allocations and deletions "
-        "inside. Oracle: destructor ledger - never a second finalisation, no destructor on a corrupted/finalised object, an "
-        "object whose del returned is finalised (except a registered object deleted while the collector is stopped, which may "
+        "new_root / new_raw and alloc / alloc_root / alloc_raw (no constructor call) of instrumented objects (malloc'd and "
+        "arena-allocated; 48 bytes, 52 bytes, 1 MiB and size 0), copy (also inside stop windows), explicit del / del_root / "
+        "del_raw, Box ownership with the owner allocated before or after the owned object, chains and cycles of Boxes, a "
+        "garbage Box whose pointee is still registered when the sweep finalises the Box, Array<Box> / List<Box> / "
+        "Table<Int,Box> / Tree<Int,Box> owners with pop / pop_at / rem / resize 0 / del / drop, managed, root and raw library "
+        "objects with buffers of their own (Array, List, Table, Tree incl. Ref keys, heap Tuple, Thread object with "
+        "thread-local entries; built directly or retyped from containers of scalars by assign / copy), objects kept only in "
+        "thread-local storage until teardown, dropped references, forced collections, churn (threshold collections), "
+        "stop/start windows with allocations and deletions inside. Oracle: destructor ledger - never a second finalisation, no "
+        "destructor on a corrupted/finalised object, an object whose del returned - or whose owning Box element was removed "
+        "from its container - is finalised (except a registered object deleted while the collector is stopped, which may "
         "be left to a later collection), after teardown every managed object finalised exactly once and root/raw objects "
         "exactly by their own del; arena blocks released exactly once and only after finalisation; malloc/calloc/realloc/free "
         "accounting (linker --wrap): no block allocated by the case's thread outstanding after teardown. non-trivial = a sweep "
         "(forced, threshold or teardown) finalised an owner together with its owned object, or a del inside a stop window, or "
         ">= 1 object survived to teardown. distinct = distinct case JSON.")
-ASSUMPTIONS = ["out-of-contract histories (double del, del of an object owned by a Box, destructors that allocate) are not generated",
+ASSUMPTIONS = ["out-of-contract histories (double del, del of an object owned by a Box, destructors that allocate) are not generated; a destructor that allocates during a sweep loses the rest of the pending list - notes/C06-candidate-destructor-allocates.c",
+               "overwriting the value of an existing key in a Table/Tree of Boxes is not asserted to finalise the old pointee at once (it becomes garbage otherwise); only removals are",
                "objects allocated inside a stop window are deleted explicitly inside the window (in-tree documentation makes them the user's duty); deleting them after start is the known finding stop-window-del-after-start",
                "block accounting counts only blocks allocated by the case's own thread"]
 
@@ -41,16 +48,30 @@ def _case(draw):
     window_objs = []
     owned = set()
     churn_next = 10000
+    nbig = 0
+    tls_used = 0
     flags = {"owner_pair": False, "stop_del": False}
     n = draw(st.integers(2, 50))
     for _ in range(n):
-        o = draw(st.sampled_from(["new", "new", "newa", "copy", "del", "drop", "collect", "churn", "box", "boxchain", "boxcycle", "arrb", "stop", "start", "windel", "bigchain"]))
-        if o in ("new", "newa"):
+        o = draw(st.sampled_from(["new", "new", "newa", "newx", "copy", "del", "drop", "collect", "churn", "box", "boxchain", "boxcycle", "arrb",
+                                  "stop", "start", "windel", "bigchain", "cont", "cont", "ownc", "ownc", "tlskeep", "boxlive"]))
+        if o in ("new", "newa", "newx"):
             cls = draw(st.sampled_from(["m", "m", "m", "root", "raw"]))
             nobj += 1
             h = nobj
-            ops.append(["new", h, "nodea" if o == "newa" else "node", cls])
-            nodes.add(h)
+            kind = "nodea" if o == "newa" else "node"
+            if o == "newx":
+                # objects of size 0, of a size that is not a multiple of the word size, of 1 MiB (at most two per case)
+                kind = draw(st.sampled_from(["nodez", "nodez", "nodeo", "nodeb"]))
+                if kind == "nodeb":
+                    if nbig >= 2:
+                        kind = "nodeo"
+                    else:
+                        nbig += 1
+            # new / new_root / new_raw, or alloc / alloc_root / alloc_raw without a constructor call
+            ops.append(["alloc" if (kind != "nodea" and draw(st.integers(0, 4)) == 0) else "new", h, kind, cls])
+            if kind != "nodez":
+                nodes.add(h)            # copyable (copy of a size-0 object raises TypeError: nothing to assign)
             rootcls[h] = (cls, stopped)
             if stopped and cls != "raw":
                 window_objs.append(h)       # unregistered: must be deleted by hand inside the window
@@ -63,10 +84,12 @@ def _case(draw):
                 rootraw.append(h)
         elif o == "copy":
             srcs = [h for h in kept.values() if h in nodes]
-            if srcs and not stopped:
+            if srcs:
                 src = draw(st.sampled_from(sorted(srcs)))
                 nobj += 1
                 ops.append(["copy", nobj, src])
+                if stopped:
+                    window_objs.append(nobj)    # the copy is not registered either: deleted by hand inside the window
         elif o == "del":
             cands = list(kept.items())
             if rootraw and (not cands or draw(st.booleans())):
@@ -224,6 +247,114 @@ def _case(draw):
                     ops.append(["delowner", a, -1])
                 else:
                     ops.append(["unstk", slot])
+        elif o == "cont" and not stopped:
+            # a library container (or a Thread object with thread-local entries) holding references to instrumented
+            # objects: it owns buffers / nodes / a table of its own, which must be released when it is finalised by a
+            # sweep, by teardown or by its own del; built directly or retyped from a container of scalars
+            kind = draw(st.sampled_from(["arr", "lst", "tab", "tre", "tup", "tabr", "trer", "thr"]))
+            cls = draw(st.sampled_from(["m", "m", "m", "root", "raw"]))
+            rt = draw(st.sampled_from([0, 0, 1, 2, 3])) if kind not in ("tup", "thr") else 0
+            nobj += 1
+            c = nobj
+            ops.append(["new", c, kind, cls] + (["retype%d" % rt] if rt else []))
+            free = sorted(set(range(16)) - set(kept))
+            keep = cls == "m" and free and draw(st.booleans())
+            if cls == "m" and free:
+                ops.append(["stk", free[0], c])       # protected while its elements are allocated
+            tg = []
+            for j in range(draw(st.integers(0, 5))):
+                nobj += 1
+                ops.append(["new", nobj, "node", "m"])
+                if kind in ("tabr", "trer"):
+                    ops.append(["store", c, tg[-1] if tg else nobj, nobj])
+                else:
+                    ops.append(["store", c, j, nobj])
+                tg.append(nobj)
+            if tg and draw(st.booleans()):
+                ops.append(["unstore", c, (tg[0] if len(tg) == 1 else tg[-2]) if kind in ("tabr", "trer") else len(tg) - 1])
+            if cls != "m":
+                how = draw(st.sampled_from(["del", "late"]))
+                if how == "del":
+                    ops.append(["delowner", c, -1])
+                else:
+                    rootraw.append(c)
+            elif keep:
+                kept[free[0]] = c
+            elif free:
+                ops.append(["unstk", free[0]])
+                if draw(st.booleans()):
+                    ops.append(["delowner", c, -1])
+            flags["cont"] = True
+        elif o == "ownc" and not stopped:
+            # a container whose elements are Boxes: List<Box>, Table<Int,Box>, Tree<Int,Box> (Array<Box> is `arrb`).
+            # Removing an element (pop, pop_at, rem, resize 0), deleting or dropping the container finalises the owned objects.
+            free = sorted(set(range(16)) - set(kept))
+            if not free:
+                continue
+            kind = draw(st.sampled_from(["lstb", "tabb", "treb", "arrb"]))
+            rt = draw(st.sampled_from([0, 0, 1]))
+            nobj += 1
+            c = nobj
+            ops.append(["new", c, kind, "m"] + (["retype%d" % rt] if rt else []))
+            ops.append(["stk", free[0], c])
+            held = []
+            for j in range(draw(st.integers(1, 6))):
+                nobj += 1
+                ops.append(["new", nobj, draw(st.sampled_from(["node", "node", "nodea", "nodez", "nodeo"])), "m"])
+                ops.append(["store", c, j, nobj])
+                held.append((j, nobj))
+            for _ in range(draw(st.integers(0, 3))):
+                if not held:
+                    break
+                if kind in ("lstb", "arrb"):
+                    if draw(st.booleans()):
+                        j, t = held.pop()
+                        ops.append(["unstore", c, 0])
+                    else:
+                        i = draw(st.integers(0, len(held) - 1))
+                        j, t = held.pop(i)
+                        ops.append(["popat", c, i])
+                else:
+                    j, t = held.pop(draw(st.integers(0, len(held) - 1)))
+                    ops.append(["unstore", c, j])
+                ops.append(["dt", t])              # the owned object was finalised by the removal
+            how = draw(st.sampled_from(["drop", "del", "clear", "keep"]))
+            if how == "clear":
+                ops.append(["clear", c])
+                for j, t in held:
+                    ops.append(["dt", t])
+                held = []
+                how = draw(st.sampled_from(["drop", "del", "keep"]))
+            if how == "keep":
+                kept[free[0]] = c
+            else:
+                ops.append(["unstk", free[0]])
+                if how == "del":
+                    ops.append(["delowner", c, -1])
+                    for j, t in held:
+                        ops.append(["dt", t])
+            flags["owner_pair"] = True
+        elif o == "tlskeep" and not stopped and tls_used < 6:
+            # an object referenced only from the thread's thread-local storage, never removed: finalised by teardown
+            nobj += 1
+            ops.append(["new", nobj, draw(st.sampled_from(["node", "nodea", "nodez"])), "m"])
+            ops.append(["tls", tls_used, nobj])
+            tls_used += 1
+        elif o == "boxlive" and not stopped:
+            # the Box is garbage while its pointee is still seen by the conservative scan (a stale stack slot): the sweep
+            # finalises the Box, whose destructor deletes an object that is still REGISTERED (not pending)
+            free = sorted(set(range(16)) - set(kept))
+            if not free:
+                continue
+            nobj += 2
+            t, b = nobj - 1, nobj
+            ops.append(["note", "box-deletes-registered-pointee"])
+            ops.append(["new", t, draw(st.sampled_from(["node", "nodea"])), "m"])
+            ops.append(["stk", free[0], t])
+            ops.append(["new", b, "box", "m", t])
+            ops.append(["collect"])
+            ops.append(["unstk", free[0]])
+            flags["owner_pair"] = True
         elif o == "stop" and not stopped:
             ops.append(["stop"])
             stopped = True
@@ -237,7 +368,10 @@ def _case(draw):
     if stopped:
         for h in window_objs:
             ops.append(["del", h, "now"])
-        ops.append(["start"])
+        if draw(st.booleans()):
+            ops.append(["start"])
+        else:
+            ops.append(["note", "teardown-while-stopped"])      # the thread / program ends with its collector stopped
     for h in rootraw:
         ops.append(["del", h, "now"])
     if draw(st.booleans()):
@@ -254,49 +388,61 @@ def strategy(tier):
     return _case()
 
 
+NODEKINDS = ("node", "nodea", "nodeb", "nodeo", "nodez")
+
+
 def encode(case):
     lines = []
     expect = []
     kinds = {}
+
+    def emit(line, exp=None):
+        lines.append(line)
+        expect.append(exp)
+
     for op in case["ops"]:
         o = op[0]
         if o == "new":
             kinds[op[1]] = op[2]
             if op[2] in ("box",):
-                lines.append("new %d box %s %d" % (op[1], op[3], op[4]))
+                emit("new %d box %s %d" % (op[1], op[3], op[4]))
             else:
-                lines.append("new %d %s %s" % (op[1], op[2], op[3]))
-            expect.append(None)
+                if len(op) > 4 and str(op[4]).startswith("retype"):
+                    emit("retype %s" % op[4][6:])
+                emit("new %d %s %s" % (op[1], op[2], op[3]))
+        elif o == "alloc":
+            kinds[op[1]] = op[2]
+            emit("alloc %d %s %s" % (op[1], op[2], op[3]))
         elif o == "copy":
-            lines.append("copy %d %d" % (op[1], op[2]))
-            expect.append(None)
+            emit("copy %d %d" % (op[1], op[2]))
         elif o == "store":
-            lines.append("store %d %d %d" % (op[1], op[2], op[3]))
-            expect.append(None)
+            emit("store %d %d %d" % (op[1], op[2], op[3]))
         elif o == "unstore":
-            lines.append("unstore %d %d" % (op[1], op[2]))
-            expect.append(None)
+            emit("unstore %d %d" % (op[1], op[2]))
+        elif o == "popat":
+            emit("popat %d %d" % (op[1], op[2]))
+        elif o == "clear":
+            emit("clear %d" % op[1])
+        elif o == "dt":
+            emit("dt %d" % op[1], "dtor=1")
+        elif o == "tls":
+            emit("tls %d %d" % (op[1], op[2]))
         elif o == "stk":
-            lines.append("stk %d %d" % (op[1], op[2]))
-            expect.append(None)
+            emit("stk %d %d" % (op[1], op[2]))
         elif o == "unstk":
-            lines.append("unstk %d" % op[1])
-            expect.append(None)
+            emit("unstk %d" % op[1])
         elif o == "del":
-            lines.append("del %d" % op[1])
-            expect.append("dtor=1" if (op[2] == "now" and kinds.get(op[1], "node") in ("node", "nodea")) else None)
+            emit("del %d" % op[1], "dtor=1" if (op[2] == "now" and kinds.get(op[1], "node") in NODEKINDS) else None)
         elif o == "delowner":
-            lines.append("del %d" % op[1])
-            expect.append(None)
+            emit("del %d" % op[1])
         elif o in ("collect", "stop", "start"):
-            lines.append(o)
-            expect.append(None)
+            emit(o)
         elif o == "churn":
-            lines.append("churn %d %d" % (op[1], op[2]))
-            expect.append(None)
+            emit("churn %d %d" % (op[1], op[2]))
+        elif o == "note":
+            pass
         elif o == "chain":
-            lines.append("chain %d %d %d %d" % (op[1], op[2], op[3], op[4]))
-            expect.append(None)
+            emit("chain %d %d %d %d" % (op[1], op[2], op[3], op[4]))
         else:
             raise HarnessBug(o)
     return lines, expect
@@ -324,8 +470,8 @@ def run_case(ctx, case):
     for l, o, e in zip(lines, obs, expect):
         if " exc " in o or " depth=" in o or " err=[" in o:
             return Result("op `%s`: %s" % (l, o), True, ev, None)
-        if e == "dtor=1" and not o.startswith("dtor=1"):
-            return Result("op `%s`: object not finalised exactly once when del returned (%s)" % (l, o), True, ev, None)
+        if e == "dtor=1" and o.strip() != "dtor=1":
+            return Result("op `%s`: object not finalised exactly once when its del / the removal from its owning container returned (%s)" % (l, o), True, ev, None)
     fin_before_teardown = obs[len(lines) - 1].split()[1:]
     td = gcx.parse_teardown(obs[-1])
     if td is None:
@@ -340,7 +486,27 @@ def run_case(ctx, case):
         return Result("%s block(s) allocated by the case's thread still outstanding after teardown" % td["outstanding"], True, ev, None)
     managed = int(td["managed"])
     survived = managed > len([x for x in fin_before_teardown if int(x) < 10000 or True])
-    has_pair = any(op[0] == "new" and op[2] in ("box", "arrb") for op in case["ops"])
+    has_pair = any(op[0] == "new" and op[2] in ("box", "arrb", "lstb", "tabb", "treb") for op in case["ops"])
+    cls = set()
+    for op in case["ops"]:
+        if op[0] in ("new", "alloc"):
+            if op[2] in ("nodez", "nodeo", "nodeb"):
+                cls.add("size=" + {"nodez": "0", "nodeo": "52", "nodeb": "1MiB"}[op[2]])
+            elif op[2] in ("lstb", "tabb", "treb", "arrb"):
+                cls.add("owning-container=" + op[2])
+            elif op[2] not in ("node", "nodea", "box"):
+                cls.add("library-object=" + op[2] + ("/" + op[3] if op[3] != "m" else ""))
+            if op[0] == "alloc":
+                cls.add("alloc-without-construct")
+            if len(op) > 4 and str(op[4]).startswith("retype"):
+                cls.add("retyped")
+        elif op[0] == "tls":
+            cls.add("kept-in-thread-local-storage")
+        elif op[0] == "dt":
+            cls.add("removal-finalises-owned")
+        elif op[0] == "note":
+            cls.add(op[1])
+    ev += sorted(cls)
     stop_del = False
     st_ = False
     for op in case["ops"]:
